@@ -512,6 +512,11 @@ func runCase(cs Case, st *stats) (key, expected, observed string) {
 	mux.Handle("/h/:n", "*", behave)
 	results := make([]wireResult, len(cs.Reqs))
 	wantIP := make([]string, len(cs.Reqs))
+	// altIP: what the client-ip request headers say (every fifth recorder request carries some). The
+	// statement's "client IP" is the peer address for Relay as it is; a Relay that trusted the
+	// headers would be as good - but both records of a request have to name the same one.
+	altIP := make([]string, len(cs.Reqs))
+	ipOK := func(i int, ip string) bool { return ip == wantIP[i] || (altIP[i] != "" && ip == altIP[i]) }
 	tag := fmt.Sprintf("%s/thr%d/wire=%v", cs.Kind, cs.Threshold, cs.Wire)
 
 	if cs.Wire {
@@ -585,6 +590,20 @@ func runCase(cs Case, st *stats) (key, expected, observed string) {
 					}
 					req.RemoteAddr = remote
 					wantIP[i], _, _ = net.SplitHostPort(remote)
+					if i%5 == 3 {
+						switch i / 5 % 3 {
+						case 0:
+							req.Header.Set("X-Forwarded-For", "203.0.113.7, 198.51.100.2")
+							altIP[i] = "203.0.113.7"
+						case 1:
+							req.Header.Set("X-Real-IP", "203.0.113.8")
+							altIP[i] = "203.0.113.8"
+						default:
+							req.Header.Set("X-Client-IP", "203.0.113.9")
+							req.Header.Set("X-Real-IP", "203.0.113.8")
+							altIP[i] = "203.0.113.9"
+						}
+					}
 					rr := httptest.NewRecorder()
 					func() {
 						defer func() {
@@ -640,6 +659,7 @@ func runCase(cs Case, st *stats) (key, expected, observed string) {
 		byURI[rq.uri()] = i
 	}
 	type perReq struct {
+		ipSeen        string // the ip of the first REQ_BEG / REQ_END record of the request
 		beg, end, err int
 		tid           string
 	}
@@ -660,7 +680,12 @@ func runCase(cs Case, st *stats) (key, expected, observed string) {
 		switch r.kind {
 		case "END":
 			pr[i].end++
-			if r.method != rq.Method || r.path != rq.uri() || r.ip != wantIP[i] {
+			if pr[i].ipSeen == "" {
+				pr[i].ipSeen = r.ip
+			} else if pr[i].ipSeen != r.ip {
+				return "ip-differs:" + kk, "REQ_BEG and REQ_END of a request name the same client ip", fmt.Sprintf("%q earlier, now %s", pr[i].ipSeen, clipS(r.raw, 300))
+			}
+			if r.method != rq.Method || r.path != rq.uri() || !ipOK(i, r.ip) {
 				return "end-fields:" + kk, fmt.Sprintf("REQ_END with method=%s path=%s ip=%s", rq.Method, rq.uri(), wantIP[i]), clipS(r.raw, 400)
 			}
 			if r.code != results[i].status {
@@ -699,7 +724,12 @@ func runCase(cs Case, st *stats) (key, expected, observed string) {
 			if pr[i].beg > 1 {
 				return "beg-dup:" + kk, "exactly one REQ_BEG per request", clipS(r.raw, 300)
 			}
-			if r.method != rq.Method || r.ip != wantIP[i] {
+			if pr[i].ipSeen == "" {
+				pr[i].ipSeen = r.ip
+			} else if pr[i].ipSeen != r.ip {
+				return "ip-differs:" + kk, "REQ_BEG and REQ_END of a request name the same client ip", fmt.Sprintf("%q earlier, now %s", pr[i].ipSeen, clipS(r.raw, 300))
+			}
+			if r.method != rq.Method || !ipOK(i, r.ip) {
 				return "beg-fields:" + kk, fmt.Sprintf("REQ_BEG with method=%s ip=%s", rq.Method, wantIP[i]), clipS(r.raw, 300)
 			}
 			if prev, dup := tidOwner[r.tid]; dup {
